@@ -420,6 +420,7 @@ func (vlog *valueLog) deleteLogFile(lf *logFile) error {
 	// Delete fid from discard stats as well.
 	vlog.discardStats.Update(lf.fid, -1)
 
+	defer vevent(6, lf.path, 0, 0) // verif: delete
 	return lf.Delete()
 }
 
@@ -618,6 +619,7 @@ func (vlog *valueLog) open(db *DB) error {
 			if err := lf.Delete(); err != nil {
 				return y.Wrapf(err, "while trying to delete empty file: %s", lf.path)
 			}
+			vevent(6, lf.path, 0, 0) // verif: delete
 			delete(vlog.filesMap, fid)
 		}
 	}
@@ -665,12 +667,14 @@ func (vlog *valueLog) Close() error {
 		if terr := lf.Close(offset); terr != nil && err == nil {
 			err = terr
 		}
+		vevent(11, lf.path, offset, 0) // verif: close
 	}
 	if vlog.discardStats != nil {
 		vlog.db.captureDiscardStats()
 		if terr := vlog.discardStats.Close(-1); terr != nil && err == nil {
 			err = terr
 		}
+		vevent(11, discardFname, -1, 0) // verif: close
 	}
 	return err
 }
@@ -770,6 +774,7 @@ func (vlog *valueLog) sync() error {
 	vlog.filesLock.RUnlock()
 
 	err := curlf.Sync()
+	vevent(4, curlf.path, 0, 0) // verif: sync
 	curlf.lock.RUnlock()
 	return err
 }
@@ -834,6 +839,7 @@ func (vlog *valueLog) write(reqs []*request) error {
 			if err := curlf.Sync(); err != nil {
 				vlog.opt.Errorf("Error while curlf sync: %v\n", err)
 			}
+			vevent(4, curlf.path, 0, 0) // verif: sync
 		}
 	}()
 
@@ -854,6 +860,7 @@ func (vlog *valueLog) write(reqs []*request) error {
 
 		start := int(endOffset - n)
 		y.AssertTrue(copy(curlf.Data[start:], buf.Bytes()) == int(n))
+		vevent(2, curlf.path, int64(start), int64(n)) // verif: write
 
 		curlf.size.Store(endOffset)
 		return nil
